@@ -143,6 +143,9 @@ func runSerialCollect(sc int, c *serialCase, emit func(serialEv)) {
 		}()
 	}
 	msg := func(k, i int) []byte {
+		if c.Flavour == "dwr" && i%2 == 0 {
+			return appMsg(280, 0, true, uint32(k*100+i)) // a watchdog request between application requests
+		}
 		req := c.Flavour != "ans" && !(c.Flavour == "mixed" && i%2 == 0)
 		return appMsg(272, 4, req, uint32(k*100+i))
 	}
